@@ -4,6 +4,7 @@ import (
 	"fmt"
 	"go/token"
 	"go/types"
+	"os"
 	"sort"
 	"strings"
 
@@ -257,6 +258,10 @@ func (e *Engine) callModSet(ms map[string]bool, c *ssa.CallCommon, locals map[*s
 		return
 	}
 	if c.IsInvoke() {
+		// an interface method with a `pure` contract (litefs.OS.*, Invalidator.*, Client.*) has no heap effect, as at call sites
+		if fc := e.contractFor((*Frame)(nil).callName(c, nil)); fc != nil && fc.Has("pure") {
+			return
+		}
 		impls := e.implementers(c.Value.Type(), c.Method)
 		for _, f := range impls {
 			for k := range e.ModSet(f) {
@@ -275,6 +280,21 @@ func (e *Engine) callModSet(ms map[string]bool, c *ssa.CallCommon, locals map[*s
 			ms[k] = true
 		}
 		return
+	}
+	// a function-valued struct field with a `pure` contract (e.g. field.DB.Now) has no effect, as at call sites
+	if fc := e.contractFor((*Frame)(nil).callName(c, nil)); fc != nil && fc.Has("pure") {
+		return
+	}
+	// process exit through a function-valued field (Store.Exit): does not return, as at call sites
+	if strings.HasSuffix((*Frame)(nil).callName(c, nil), ".Exit") {
+		return
+	}
+	// a context.CancelFunc only cancels its context
+	if n, ok := c.Value.Type().(*types.Named); ok && n.Obj().Pkg() != nil && n.Obj().Pkg().Path() == "context" && n.Obj().Name() == "CancelFunc" {
+		return
+	}
+	if os.Getenv("GOVC_DEBUG_MODSET") != "" {
+		fmt.Fprintf(os.Stderr, "modset *: dynamic call %s in %s\n", c.Value, c.Value.Parent())
 	}
 	ms["*"] = true
 }
